@@ -9,6 +9,8 @@ CONSISTENCY with the exact constants - which is what fixes the physical units:
   * single compartment with a leak: the real Module.step (bwd_euler / crank_nicolson) is the scheme's update of
     tau dV/dt = -(V - E) + R I with tau = c_m/(1000 g) ms and R I = I*100/(2 pi r l g) mV  (S/cm2, nA, um)
   * fixed point under constant current: V = E + I/(g*A), A = 2 pi r l 1e-8 cm2
+  * a cable split over branches is the same cable (branch-point elimination lemma), and every backend - also for a cable inside
+    a network whose cells differ in depth - returns the solution of the physical system (the C01 chain on those structures)
 Second order in dx and first/second order in dt then follow from the standard theorems for these schemes (cited).
 """
 from __future__ import annotations
@@ -74,6 +76,49 @@ def _worker(tier):
                 prove(f"uniform cable n={n}:diagonal {i} == 1 + {len(nb)}*dt*(d/4Ra)/dx^2/cm ({'sealed end' if len(nb) == 1 else 'interior'})", pos,
                       A["M"][i].get(i, Sym(0)).e == (Sym(1) + len(nb) * dt * D_coef).e)
                 structural(f"uniform cable n={n}:row {i} couples only to its neighbours (zero flux beyond the ends)", sorted(c for c, s in A["M"][i].items() if s.c != 0) == sorted(nb + [i]))
+        # ---- a cable split over branches is the SAME cable: eliminating the zero-capacitance branch-point node from the physical
+        # system of a chain [-1, 0] with n + n uniform compartments gives exactly the rows of the unbranched 2n-compartment cable
+        for n in (1, 2, 3):
+            Ctx.reset()
+            r, l, ra, cm, dt = (Sym(z3.Real(k)) for k in ("r", "dx", "Ra", "cm", "dt"))
+            N2 = 2 * n
+            rep = lambda s: SymArray(np.asarray([s] * N2, dtype=object))
+            mk = lambda nm: SymArray(np.asarray([Sym(z3.Real(f"{nm}{i}")) for i in range(N2)], dtype=object))
+            P = {"radius": rep(r), "length": rep(l), "axial_resistivity": rep(ra), "capacitance": rep(cm), "a": mk("a"), "c": mk("c"), "v": mk("v")}
+            t_split, t_whole = cable.Topology([([-1, 0], [n, n])]), cable.Topology([([-1], [N2])])
+            rows_s, rows_w = cable.system(t_split, P, dt), cable.system(t_whole, P, dt)
+            pos = [x.e > 0 for x in (r, l, ra, cm, dt)] + D.PI_FACTS
+            bp = t_split.N
+            co_bp, _ = rows_s[bp]                      # sum_k G_k x_k - (sum_k G_k) x_bp = 0
+            others = {k: g for k, g in co_bp.items() if k != bp}
+            for i in range(N2):
+                co, rhs = rows_s[i]
+                elim = {k: v for k, v in co.items() if k != bp}
+                if bp in co:
+                    for k, g in others.items():        # x_bp = sum_k G_k x_k / (-co_bp[bp])
+                        elim[k] = elim.get(k, Sym(0)) + co[bp] * g / (Sym(0) - co_bp[bp])
+                cw, rw = rows_w[i]
+                goal = z3.And(*[elim.get(k, Sym(0)).e == cw.get(k, Sym(0)).e for k in sorted(set(elim) | set(cw))], rhs.e == rw.e)
+                prove(f"cable split over two branches n={n}+{n}:row {i} after eliminating the branch point == row {i} of the unbranched cable", pos, goal)
+        # ---- every backend, with the cable inside a network next to a cell of different depth (the custom solvers merge the
+        # cells' elimination schedules level by level): the real solver code returns the solution of the physical system
+        nets = [[([-1], [2]), ([-1, 0], [2, 2])], [([-1, 0], [1, 2]), ([-1], [1])]] + ([] if tier == "quick" else [[([-1, 0, 1], [1, 1, 1]), ([-1], [2]), ([-1, 0], [2, 1])]])
+        for cells in nets:
+            module = C01.build_module(cells)
+            topo = cable.Topology(cells)
+            for be in ("jaxley.thomas", "jaxley.stone", "jax.sparse"):
+                Ctx.reset()
+                Pn = C01.sym_params(topo.N)
+                dtn = Sym(z3.Real("dt"))
+                tagn = f"{be};{C01.tag_of(cells)}"
+                if be == "jax.sparse":
+                    res, info = CH.run_sparse(module, topo, Pn, dtn, tagn, 30000)
+                else:
+                    res, info = CH.run_jaxley_chain(module, topo, Pn, dtn, be, tagn, 30000)
+                    if info.get("refused"):
+                        structural(f"cable in a mixed-depth network:{tagn} accepted by the backend", False, info["refused"])
+                out["results"] += res
+                out["reached"].update(info.get("reached", {}))
         # ---- single compartment with a leak: the real Module.step
         comp = jx.Compartment()
         comp.insert(Leak())
@@ -125,10 +170,27 @@ def main(tier):
     if o[0] != "ok" or o[1]["error"]:
         ck.error(str(o[1] if o[0] != "ok" else o[1]["error"])[:800])
     else:
+        nviol = 0
+        rp_cache = {}
         for r in o[1]["results"]:
             ck.add(r)
-            if r["status"] == "refuted":
-                ck.violation(r["name"], {"solver": r["backend"], "solver_output": r["detail"], "model": r["model"], "kind": "c15"}, reproduced=False)
+            if r["status"] == "refuted" and nviol < 12:
+                nviol += 1
+                rp, extra = {"reproduced": False}, {}
+                if ";tree=" in r["name"]:
+                    # obligation of the solver chain on a network structure: native replay as in C01 (all backends against a dense
+                    # solve of the physical system, random positive parameters)
+                    from . import C01
+                    tag = r["name"].split("[")[-1].rstrip("]").split(";", 1)[1]
+                    cells = [([int(x) for x in part.split(";")[0][len("tree="):].split(".")], [int(x) for x in part.split(";")[1][len("ncomp="):].split(".")]) for part in tag.split("|")]
+                    if tag not in rp_cache:
+                        try:
+                            rp_cache[tag] = C01.native_compare(cells)
+                        except Exception as e:
+                            rp_cache[tag] = {"reproduced": False, "reason": f"native construction/integration raised {type(e).__name__}: {str(e)[:100]}"}
+                    rp, extra = rp_cache[tag], {"cells": cells, "replay_module": "jxverif.props.C01"}
+                ck.violation(r["name"], {"solver": r["backend"], "solver_output": r["detail"], "model": r["model"], "kind": "c01" if extra else "c15", "replay": rp, **extra},
+                             reproduced=rp.get("reproduced", False))
         ck.extra["code_reached"] = {k: v for k, v in o[1]["reached"].items() if k.startswith("jaxley")}
         for f in ("jaxley.utils.cell_utils.compute_axial_conductances", "jaxley.utils.cell_utils.compute_coupling_cond", "jaxley.modules.base.Module.step",
                   "jaxley.modules.base.Module._channel_currents", "jaxley.modules.base.Module._get_external_input", "jaxley.utils.cell_utils.convert_point_process_to_distributed",
